@@ -77,6 +77,28 @@ CLAIMED = {
             "only after looking that very value up in the retained and release lists and finding it absent. With the last "
             "clause the clause set is the property (for the in-flight sets the crate keeps).",
             "DESIGN.md §4 C07"),
+    "C12": ("dominance over Session::connect + store-shape of the reset functions + provenance of the CONNECT buffer",
+            "Static analysis, structural clauses only: reader reset, timer reset and the unconditional re-arm of all queues "
+            "dominate the handshake on every path and connect() has no exit that bypasses the handshake; CONNECT is the first "
+            "I/O; the CONNECT scratch must not depend on in-flight state (known finding: it is the arena tail). Because the "
+            "resets are unconditional the clause holds for every prior history (all crash points of all operations) without "
+            "enumerating them. Broker behaviour is not modelled.",
+            "DESIGN.md §4 C12"),
+    "C13": ("taint of transport byte counts vs. await points (Yield terminators of the pre-transform coroutine MIR) over "
+            "the call tree + await-freedom of critical sections",
+            "Static analysis, structural clauses only: for every transport read/write in the call tree of the cancel-safe "
+            "operations the byte count is committed to session state (or returned to a caller that commits it) before the "
+            "next await on every path, so dropping the future at any await loses no progress; allocation..enqueue sections "
+            "are await-free; enqueue precedes the first write; progress setters store what they are given. One genuine "
+            "defect (disconnect via write_all) is a known finding. Equality of cancelled and uncancelled runs is not decided.",
+            "DESIGN.md §4 C13"),
+    "C14": ("sibling agreement of the size predicates + must-pass (path-sensitive where needed) of size checks before "
+            "every write/enqueue + wiring of the advertised and the broker limit",
+            "Static analysis, structural clauses only: the four predicates are `len > max as usize` and answer PacketTooLarge; "
+            "each transport write and each enqueue is dominated by the success edge of a size check of the very packet; "
+            "CONNECT advertises the receive-buffer length and the broker limit is written only from the CONNACK; the receive "
+            "window is sliced only within the buffer. Sizes around the limit are not enumerated.",
+            "DESIGN.md §4 C14"),
 }
 
 NOT_APPLICABLE = {
